@@ -6,7 +6,8 @@ import (
 	"unicode"
 )
 
-var names = []byte("abtnvf")
+// names of the escape sequences for the bytes 7 to 13: \a \b \t \n \v \f \r
+var names = []byte("abtnvfr")
 
 // Quote a string so that it is a valid Lua string literal
 func Quote(s string, quote byte) string {
